@@ -112,8 +112,23 @@ def targetViaBase (subdir name : Str) : List Str :=
 /-- `FilePath.joinpath(path)` on a handler-relative `_path` -/
 def joinpath (self : List Str) (path : Str) : List Str := normalize self [path]
 
-/-- `local._tmpname` on the last component; `limit = 255 - 5`. Works on characters like Python. -/
-def tmpName (name : Str) : Str := '.' :: (name.take 250 ++ ['.', 't', 'm', 'p'])
+/-- `len(os.fsencode(name))`: the number of bytes of the UTF-8 encoding (text without lone surrogates) -/
+def utf8Len : Str → Nat
+  | [] => 0
+  | c :: cs => c.utf8Size + utf8Len cs
+
+/-- the `while len(os.fsencode(name)) > limit: name = name[:-1]` loop of `_tmpname`: whole characters
+are dropped from the end until the encoding fits, i.e. the longest prefix of at most `n` bytes -/
+def takeBytes : Nat → Str → Str
+  | _, [] => []
+  | n, c :: cs => if c.utf8Size ≤ n then c :: takeBytes (n - c.utf8Size) cs else []
+
+/-- `local._tmpname` on the last component; `limit = 255 - 5` **bytes** (as coded after the repair;
+the pinned code cut after 250 characters: `tmpNameOld`). -/
+def tmpName (name : Str) : Str := '.' :: (takeBytes 250 name ++ ['.', 't', 'm', 'p'])
+
+/-- the pinned `_tmpname` (250 characters, whatever their size), kept for the witness theorems -/
+def tmpNameOld (name : Str) : Str := '.' :: (name.take 250 ++ ['.', 't', 'm', 'p'])
 
 def tmpPath (parts : List Str) : List Str :=
   match parts.getLast? with
